@@ -2,3 +2,5 @@
 pub mod common;
 pub mod gens;
 pub mod subs_env;
+pub mod client_mock;
+pub mod server_env;
